@@ -49,10 +49,13 @@ import (
 
 const (
 	ref           = "eth-main"
-	saleContract  = "0x00000000000000000000000000000000000000c1"
-	otherContract = "0x00000000000000000000000000000000000000c2"
-	saleMonths    = 24        // keeper.lightNodeSaleVestingMonths
-	saleUnit      = 1_000_000 // sale amounts are GRAIN, licences are ugrain
+	ref2          = "bnb-main"                                   // second active chain; sorts before ref in the contract store
+	saleContract  = "0x00000000000000000000000000000000000000c1" // authorised on ref
+	saleContract2 = "0x00000000000000000000000000000000000000c3" // authorised on ref2
+	otherContract = "0x00000000000000000000000000000000000000c2" // never authorised
+	otherDenom    = "uother"                                     // second denom licences can be paid in
+	saleMonths    = 24                                           // keeper.lightNodeSaleVestingMonths
+	saleUnit      = 1_000_000                                    // sale amounts are GRAIN, licences are ugrain
 	grantLimit    = 1_000_000
 	tick          = 40*24*time.Hour + 7*time.Second
 )
@@ -65,6 +68,13 @@ type faultCtl struct {
 	failAt int // 1-based; 0 = never
 	site   string
 }
+
+var (
+	chains   = []string{ref2, ref}
+	denoms   = []string{world.BondDenom, otherDenom}
+	ownSale  = map[string]string{ref: saleContract, ref2: saleContract2}
+	contName = map[string]string{saleContract: "c-eth", saleContract2: "c-bnb", otherContract: "other"}
+)
 
 var errInjected = errors.New("verif: injected collaborator failure")
 
@@ -156,31 +166,41 @@ func (p feegrantProxy) GrantAllowance(ctx context.Context, granter, grantee sdk.
 
 type lic struct {
 	Amount int64
+	Denom  string
 	Months uint32
 }
 
 type act struct {
 	Amount     int64
+	Denom      string
 	Start, End int64
 	LastAuth   int64
 }
 
 type ghost struct {
 	Scn        string
-	Lic        map[string]lic   // client name -> not yet activated licence
-	Act        map[string]act   // client name -> activation
-	Paid       map[string]int64 // funder name -> ugrain paid into escrow since the initial state
-	Grants     map[string]bool  // client names holding the sale fee grant
-	Nonce      uint64           // skyway events voted so far == expected oracle cursor
+	Lic        map[string]lic    // client name -> not yet activated licence
+	Act        map[string]act    // client name -> activation
+	Paid       map[string]int64  // "funder/denom" -> paid into escrow since the initial state
+	Grants     map[string]bool   // client names holding the sale fee grant
+	Nonce      map[string]uint64 // chain -> skyway events voted so far == expected oracle cursor
 	Funders    bool
 	Feegranter bool
-	Contract   bool
-	dg         string // digest of the state this ledger belongs to, when known (cache only)
+	Contracts  map[string]bool // chains whose own sale contract the last governance proposal authorised
+	dg         string          // digest of the state this ledger belongs to, when known (cache only)
 }
 
 func (g *ghost) Clone() explore.Ghost {
 	n := &ghost{Scn: g.Scn, Lic: map[string]lic{}, Act: map[string]act{}, Paid: map[string]int64{}, Grants: map[string]bool{},
-		Nonce: g.Nonce, Funders: g.Funders, Feegranter: g.Feegranter, Contract: g.Contract}
+		Nonce: map[string]uint64{}, Funders: g.Funders, Feegranter: g.Feegranter, Contracts: map[string]bool{}}
+	for k, v := range g.Nonce {
+		n.Nonce[k] = v
+	}
+	for k, v := range g.Contracts {
+		if v {
+			n.Contracts[k] = v
+		}
+	}
 	for k, v := range g.Lic {
 		n.Lic[k] = v
 	}
@@ -198,7 +218,7 @@ func (g *ghost) Clone() explore.Ghost {
 
 func (g *ghost) Key() string { b, _ := json.Marshal(g); return string(b) }
 
-func (g *ghost) configured() bool { return g.Funders && g.Feegranter && g.Contract }
+func (g *ghost) configured(chain string) bool { return g.Funders && g.Feegranter && g.Contracts[chain] }
 
 // ---------------------------------------------------------------------------
 
@@ -221,33 +241,65 @@ type env struct {
 }
 
 type pair struct {
-	amt int64
-	mo  uint32
+	amt   int64
+	mo    uint32
+	denom string
+}
+
+type saleP struct {
+	chain    string
+	amt      int64
+	contract string
 }
 
 // alphabet of the parameterised operations.
 type alphabet struct {
-	name      string
-	create    []pair  // (amount, months) of AddLicence for targets without an account
-	reject    []pair  // (amount, months) of AddLicence for targets that have an account (licensed, activated, U)
-	sale      []int64 // amounts of SaleQuorum from the authorised contract
-	saleOther []int64 // amounts of SaleQuorum from another contract
+	name    string
+	create  []pair  // (amount, months, denom) of AddLicence for targets without an account
+	reject  []pair  // the same for targets that have an account (licensed, activated, U)
+	sales   []saleP // (chain, amount in GRAIN, reporting contract) of SaleQuorum
+	govSets bool    // governance replaces the sale-contract set by any subset of {ref2, ref}; otherwise it toggles ref's contract
 }
 
 func fullAlphabet() alphabet {
 	var ps []pair
 	for _, a := range []int64{0, 1, 5} {
 		for _, m := range []uint32{0, 1, 24} {
-			ps = append(ps, pair{a, m})
+			ps = append(ps, pair{a, m, world.BondDenom})
 		}
 	}
-	return alphabet{name: "full", create: ps, reject: ps, sale: []int64{0, 1, 5}, saleOther: []int64{0, 1, 5}}
+	ps = append(ps, pair{0, 1, otherDenom}, pair{1, 0, otherDenom}, pair{1, 24, otherDenom}, pair{5, 1, otherDenom})
+	al := alphabet{name: "full", create: ps, reject: ps}
+	for _, a := range []int64{0, 1, 5} {
+		al.sales = append(al.sales, saleP{ref, a, saleContract}, saleP{ref, a, otherContract})
+	}
+	return al
 }
 
-// reducedAlphabet keeps every amount and every month value but not their product.
+// reducedAlphabet keeps every amount, every month value and both denoms but not their product.
 func reducedAlphabet() alphabet {
-	return alphabet{name: "reduced", create: []pair{{0, 1}, {1, 0}, {1, 24}, {5, 1}}, reject: []pair{{1, 0}, {5, 24}},
-		sale: []int64{0, 1, 5}, saleOther: []int64{5}}
+	return alphabet{name: "reduced",
+		create: []pair{{0, 1, world.BondDenom}, {1, 0, world.BondDenom}, {1, 24, world.BondDenom}, {5, 1, otherDenom}},
+		reject: []pair{{1, 0, world.BondDenom}, {5, 24, otherDenom}},
+		sales:  []saleP{{ref, 0, saleContract}, {ref, 1, saleContract}, {ref, 5, saleContract}, {ref, 5, otherContract}}}
+}
+
+// contractsAlphabet is the two-chain alphabet: sales reported from both chains by
+// either chain's contract, governance replacing the authorised set.
+func contractsAlphabet() alphabet {
+	return alphabet{name: "contracts", govSets: true,
+		create: []pair{{1, 1, world.BondDenom}},
+		sales:  []saleP{{ref, 1, saleContract}, {ref, 1, saleContract2}, {ref2, 1, saleContract2}, {ref2, 1, saleContract}}}
+}
+
+func alphabetByName(n string) alphabet {
+	switch n {
+	case "full":
+		return fullAlphabet()
+	case "contracts":
+		return contractsAlphabet()
+	}
+	return reducedAlphabet()
 }
 
 type scenario struct {
@@ -280,8 +332,18 @@ func run(r *report.Run, shard, nshards int, replayFile string) {
 		defer pprof.StopCPUProfile()
 	}
 	w := world.New(world.Config{Stakes: world.StakesOf(1_000_000, 1_000_000, 1_000_000),
-		Users: []string{"F1", "F2", "FG", "U", "sink"}, Unfunded: []string{"fresh1", "fresh2", "L0"}, Height: 101})
+		Users: []string{"F1", "F2", "FG", "U", "sink"}, Unfunded: []string{"fresh1", "fresh2", "L0"}, Height: 101,
+		UserFunds: sdk.NewCoins(sdk.NewInt64Coin(world.BondDenom, 1_000_000_000_000), sdk.NewInt64Coin(otherDenom, 1_000_000_000_000))})
 	must(w.StdChain(w.Root, ref))
+	// a second ACTIVE chain, so that sale claims from it are tallied
+	must(w.AddChain(w.Root, ref2, 2, 2))
+	for _, v := range w.Vals {
+		must(w.RegisterAccounts(w.Root, v, nil, ref, ref2))
+	}
+	if sn, err := w.Snapshot(w.Root); err == nil && sn != nil {
+		_ = w.App.ValsetKeeper.SetSnapshotOnChain(w.Root, sn.Id, ref)
+		_ = w.App.ValsetKeeper.SetSnapshotOnChain(w.Root, sn.Id, ref2)
+	}
 	a := w.App
 	e := &env{w: w, r: r, fc: &faultCtl{}, F: []*world.Actor{w.User("F1"), w.User("F2")}, FG: w.User("FG"), U: w.User("U"),
 		clients: []*world.Actor{w.User("fresh1"), w.User("fresh2"), w.User("L0"), w.User("U")},
@@ -302,13 +364,15 @@ func run(r *report.Run, shard, nshards int, replayFile string) {
 		a.DistrKeeper, a.TransferKeeper, a.EvmKeeper, a.ConsensusKeeper, *e.fPaloma, a.TokenFactoryKeeper,
 		skywaykeeper.NewSkywayStoreGetter(a.GetKey(skywaytypes.StoreKey)), w.Gov, authcodec.NewBech32Codec(chainparams.ValidatorAddressPrefix))
 
-	r.Rule = "BFS from 4 (thorough 5) base states {sale fully configured × funder balances (first poor + second rich | exactly enough | none), fee granter never configured} over " +
-		"AddLicence(funder∈{F1,F2}, client∈{fresh1,fresh2,account holder U,licensed L0}, amount∈{0,1,5}, months∈{0,1,24}) as signed MsgAddLightNodeClientLicense txs; " +
-		"SaleQuorum(client, amount∈{0,1,5} GRAIN, contract∈{authorised,other}) = three validators' signed MsgLightNodeSaleClaim + skyway.EndBlocker; " +
-		"Register(who) / Register with creator≠first signer / Register for a licensee signed by someone else; Auth(who); Tick(+40 d); funders / sale-contract governance toggles; " +
+	r.Rule = "BFS from 5 (thorough 6) base states {sale fully configured × funder balances (first poor + second rich | exactly enough | none | first rich + second poor), fee granter never configured, two chains with a sale contract each} over " +
+		"AddLicence(funder∈{F1,F2}, client∈{fresh1,fresh2,account holder U,licensed L0}, amount∈{0,1,5}, months∈{0,1,24}, denom∈{ugrain,uother}) as signed MsgAddLightNodeClientLicense txs; " +
+		"SaleQuorum(chain, client, amount∈{0,1,5} GRAIN, reporting contract∈{the chain's own, another}) = three validators' signed MsgLightNodeSaleClaim + skyway.EndBlocker; " +
+		"Register(who) / Register with creator≠first signer / Register for a licensee signed by someone else; Auth(who); Tick(+40 d); governance: funders on/off, sale-contract set replaced through the real proposal handler " +
+		"(one chain: on/off; two-chain base state: every subset of {bnb-main, eth-main}, sales reported from both chains by either contract); " +
 		"every AddLicence, SaleQuorum and Register is also executed once per collaborator call (bank, account, feegrant keeper) with that call failing; " +
-		"oracle in every state: escrow == Σ unactivated licences, licence / client / account-kind / vesting-schedule / funder-balance / fee-grant sets equal the ledger; " +
-		"a state is distinct by (paloma, bank, feegrant stores, canonical accounts, oracle cursor, block time, ledger)"
+		"oracle in every state, per denom: escrow == Σ unactivated licences paid in that denom, licence / client / account-kind / vesting-schedule (original vesting = the licensed coin) / funder-balance / fee-grant sets equal the ledger, " +
+		"stored sale contracts == the set the last proposal authorised; a sale from a chain / contract outside that set changes nothing; " +
+		"a state is distinct by (paloma, bank, feegrant stores, canonical accounts, oracle cursors of both chains, block time, ledger)"
 	r.Assumptions = []string{
 		"tx atomicity re-implemented as in baseapp.runTx (ante cache, msg cache, panic → tx error); fees are zero in this app (TxFeeSkipper), so the licensed address pays nothing and needs only the base account that licence creation gives it: Register/Auth are really signed txs by that address",
 		"fault-injected variants run the same message through keeper.NewMsgServerImpl(faultyPalomaKeeper) in a tx-like cache (ante not re-run), resp. skyway.EndBlocker(faultySkywayKeeper) after the real votes; they are evaluated on forks of the pre-state with the same step oracle and invariant and are not extended further; failure answers of calls without an error result: HasBalance=false, HasAccount=true, GetAccount=nil, NewAccount/SetAccount panic",
@@ -317,6 +381,7 @@ func run(r *report.Run, shard, nshards int, replayFile string) {
 		"activation 'only by the licensed address itself' = the activated licence is the one of the message creator (anchor: activation keyed by message creator), and a tx naming a licensee as creator but signed by someone else is rejected",
 		"vesting end = activation block time .AddDate(0, months, 0) (calendar months, as the keeper computes it); linearity checked at start, midpoint (±1) and end of the schedule",
 		"fresh1/fresh2 symmetry: fresh2 becomes a creation target only once fresh1 has an account (handlers do not depend on address order)",
+		"alphabets: 'full' = amounts × months in ugrain plus 4 (amount, months) pairs in uother, sales on eth-main by its own / another contract; 'reduced' = every amount, month value and denom but 4 creating and 2 must-be-rejected pairs; 'contracts' (two-chain base state only) = one creating pair, 1-GRAIN sales from both chains by either chain's contract, governance over all contract subsets",
 		"SaleQuorum is a macro (three votes + end-blocker); vote interleavings are C02's subject; the skyway store apart from the last observed nonce is not hashed (attestation records are not read by the explored handlers)",
 	}
 
@@ -370,22 +435,23 @@ func (e *env) jobs() []job {
 	for _, s := range e.scenarios() {
 		sc[s.name] = s
 	}
-	full, red := fullAlphabet(), reducedAlphabet()
+	full, red, con := fullAlphabet(), reducedAlphabet(), contractsAlphabet()
 	const (
 		A  = "configured/F1-poor-F2-rich"
 		B  = "configured/exactly-enough"
 		C  = "no-feegranter/rich"
 		E  = "configured/no-balance"
 		A2 = "configured/F1-rich-F2-poor"
+		T  = "two-chains/rich"
 	)
 	if !e.thorough {
 		return []job{
-			{sc[E], red, 4, 1}, {sc[C], red, 3, 2}, {sc[B], red, 4, 5}, {sc[A], red, 4, 7},
+			{sc[E], red, 4, 1}, {sc[T], con, 3, 2}, {sc[C], red, 3, 2}, {sc[B], red, 4, 5}, {sc[A], red, 4, 7},
 			{sc[A], full, 3, 5},
 		}
 	}
 	return []job{
-		{sc[E], full, 4, 1}, {sc[C], full, 3, 2}, {sc[B], full, 3, 2}, {sc[A], full, 4, 10},
+		{sc[E], full, 4, 1}, {sc[T], con, 5, 3}, {sc[C], full, 3, 2}, {sc[B], full, 3, 2}, {sc[A], full, 4, 10},
 		{sc[E], red, 6, 1}, {sc[C], red, 5, 4}, {sc[A2], red, 5, 4},
 		{sc[B], red, 6, 10}, {sc[A], red, 6, 16},
 	}
@@ -420,8 +486,8 @@ func (e *env) replay(r *report.Run, jobs []job, file string) {
 			continue
 		}
 		e.al = reducedAlphabet()
-		if len(parts) > 1 && parts[1] == "full" {
-			e.al = fullAlphabet()
+		if len(parts) > 1 {
+			e.al = alphabetByName(parts[1])
 		}
 		spec := e.spec(job{scn: s, al: e.al, depth: len(path)}, 0, 1)
 		if f := explore.Replay(spec, path); f != nil {
@@ -460,17 +526,45 @@ func (e *env) setFunders(ctx sdk.Context, on bool) error {
 	return palomamodule.NewPalomaProposalHandler(e.w.App.PalomaKeeper)(ctx, p)
 }
 
-func (e *env) setContract(ctx sdk.Context, on bool) error {
+// setContracts replaces the sale-contract set through the real proposal handler:
+// afterwards exactly the chains in set have their own contract authorised.
+func (e *env) setContracts(ctx sdk.Context, set map[string]bool) error {
 	p := &skywaytypes.SetLightNodeSaleContractsProposal{Title: "contracts", Description: "contracts"}
-	if on {
-		p.LightNodeSaleContracts = []*skywaytypes.LightNodeSaleContract{{ChainReferenceId: ref, ContractAddress: saleContract}}
+	for _, ch := range chains {
+		if set[ch] {
+			p.LightNodeSaleContracts = append(p.LightNodeSaleContracts, &skywaytypes.LightNodeSaleContract{ChainReferenceId: ch, ContractAddress: ownSale[ch]})
+		}
 	}
 	return skywaykeeper.NewSkywayProposalHandler(e.w.App.SkywayKeeper)(ctx, p)
 }
 
+// contractsAgree compares the stored contract of every chain with the set the last proposal authorised.
+func (e *env) contractsAgree(ctx sdk.Context, g *ghost) *explore.Fail {
+	if os.Getenv("C18_SKIP_CONTRACT_ASSERT") != "" {
+		return nil // demonstration only: shows that the sale oracle alone reports a stale contract
+	}
+	for _, ch := range chains {
+		c, err := e.w.App.SkywayKeeper.LightNodeSaleContract(ctx, ch)
+		if stored := err == nil && c != nil; stored != g.Contracts[ch] || stored && c.ContractAddress != ownSale[ch] {
+			return explore.Failf("contract-set-after-proposal", "chain %s: stored sale contract %v (err=%v), but the last governance proposal authorised the set %v", ch, c, err, setName(g.Contracts))
+		}
+	}
+	return nil
+}
+
+func setName(set map[string]bool) string {
+	var out []string
+	for _, ch := range chains {
+		if set[ch] {
+			out = append(out, ch)
+		}
+	}
+	return "{" + strings.Join(out, ",") + "}"
+}
+
 func (e *env) scenarios() []scenario {
 	w := e.w
-	mk := func(name string, funders, feegranter, contract bool, f1, f2 int64, depthOff int, weight float64) scenario {
+	mk := func(name string, funders, feegranter bool, contracts []string, f1, f2 int64, depthOff int, weight float64) scenario {
 		ctx := world.Fork(w.Root)
 		// L0 holds a licence from the start: 5 ugrain, 1 month, paid by F2 through the real tx
 		res := w.DeliverTx(ctx, []*world.Actor{e.F[1]}, &palomatypes.MsgAddLightNodeClientLicense{Metadata: world.Meta(e.F[1]),
@@ -483,35 +577,44 @@ func (e *env) scenarios() []scenario {
 			must(palomamodule.NewPalomaProposalHandler(w.App.PalomaKeeper)(ctx, &palomatypes.SetLightNodeClientFeegranterProposal{
 				Title: "fg", Description: "fg", FeegranterAccount: e.FG.Addr.String()}))
 		}
-		if contract {
-			must(e.setContract(ctx, true))
+		cs := map[string]bool{}
+		for _, ch := range contracts {
+			cs[ch] = true
 		}
+		must(e.setContracts(ctx, cs))
 		e.setBalance(ctx, e.F[0], f1)
 		e.setBalance(ctx, e.F[1], f2)
 		e.init[name] = map[string]*big.Int{}
 		for _, u := range []*world.Actor{e.F[0], e.F[1], e.U, e.FG} {
-			e.init[name][u.Name] = w.Balance(ctx, u.Addr, world.BondDenom)
+			for _, d := range denoms {
+				e.init[name][u.Name+"/"+d] = w.Balance(ctx, u.Addr, d)
+			}
 		}
-		g := &ghost{Scn: name, Lic: map[string]lic{"L0": {5, 1}}, Act: map[string]act{}, Paid: map[string]int64{}, Grants: map[string]bool{},
-			Funders: funders, Feegranter: feegranter, Contract: contract}
+		g := &ghost{Scn: name, Lic: map[string]lic{"L0": {5, world.BondDenom, 1}}, Act: map[string]act{}, Paid: map[string]int64{}, Grants: map[string]bool{},
+			Nonce: map[string]uint64{}, Funders: funders, Feegranter: feegranter, Contracts: cs}
 		return scenario{name: name, node: &explore.Node{Ctx: ctx, Ghost: g}, depthOff: depthOff, weight: weight}
 	}
 	const rich = 1_000_000_000_000
 	out := []scenario{
-		mk("configured/F1-poor-F2-rich", true, true, true, 3, rich, 0, 10),
-		mk("configured/exactly-enough", true, true, true, 5*saleUnit, 0, 0, 6),
-		mk("no-feegranter/rich", true, false, true, rich, rich, -1, 3),
-		mk("configured/no-balance", true, true, true, 0, 0, 0, 1),
+		mk("configured/F1-poor-F2-rich", true, true, []string{ref}, 3, rich, 0, 10),
+		mk("configured/exactly-enough", true, true, []string{ref}, 5*saleUnit, 0, 0, 6),
+		mk("no-feegranter/rich", true, false, []string{ref}, rich, rich, -1, 3),
+		mk("configured/no-balance", true, true, []string{ref}, 0, 0, 0, 1),
+		mk("configured/F1-rich-F2-poor", true, true, []string{ref}, rich, 3, -1, 4),
+		mk("two-chains/rich", true, true, []string{ref, ref2}, rich, rich, 0, 3),
 	}
-	out = append(out, mk("configured/F1-rich-F2-poor", true, true, true, rich, 3, -1, 4))
 	return out
 }
 
 // ---------------------------------------------------------------------------
 // observation
 
-func (e *env) bal(ctx sdk.Context, a sdk.AccAddress) int64 {
-	return e.w.App.BankKeeper.GetBalance(ctx, a, world.BondDenom).Amount.Int64()
+func (e *env) bal(ctx sdk.Context, a sdk.AccAddress, denom string) int64 {
+	return e.w.App.BankKeeper.GetBalance(ctx, a, denom).Amount.Int64()
+}
+
+func coin(amt int64, denom string) sdk.Coin {
+	return sdk.Coin{Denom: denom, Amount: sdkmath.NewInt(amt)}
 }
 
 func canonAccount(a sdk.AccountI) string {
@@ -563,14 +666,14 @@ func (e *env) nodeDigest(n *explore.Node) string {
 	return g.dg
 }
 
-func (e *env) cursor(ctx sdk.Context) uint64 {
-	n, err := e.w.App.SkywayKeeper.GetLastObservedSkywayNonce(ctx, ref)
+func (e *env) cursor(ctx sdk.Context, chain string) uint64 {
+	n, err := e.w.App.SkywayKeeper.GetLastObservedSkywayNonce(ctx, chain)
 	must(err)
 	return n
 }
 
 func (e *env) hash(n *explore.Node) string {
-	return fmt.Sprintf("%s|%s|%d|%d", n.Ghost.Key(), e.nodeDigest(n), e.cursor(n.Ctx), n.Ctx.BlockTime().Unix())
+	return fmt.Sprintf("%s|%s|%d|%d|%d", n.Ghost.Key(), e.nodeDigest(n), e.cursor(n.Ctx, ref), e.cursor(n.Ctx, ref2), n.Ctx.BlockTime().Unix())
 }
 
 func (e *env) name(addr string) string {
@@ -587,20 +690,20 @@ func (e *env) licences(ctx sdk.Context) (map[string]lic, *explore.Fail) {
 	}
 	out := map[string]lic{}
 	for _, l := range all {
-		if l.Amount.Denom != world.BondDenom || !l.Amount.Amount.IsInt64() {
+		if !l.Amount.Amount.IsInt64() {
 			return nil, explore.Failf("licence-set", "licence of %s holds %s", e.name(l.ClientAddress), l.Amount)
 		}
 		if _, dup := out[e.name(l.ClientAddress)]; dup {
 			return nil, explore.Failf("licence-set", "two licence records for %s", e.name(l.ClientAddress))
 		}
-		out[e.name(l.ClientAddress)] = lic{l.Amount.Amount.Int64(), l.VestingMonths}
+		out[e.name(l.ClientAddress)] = lic{l.Amount.Amount.Int64(), l.Amount.Denom, l.VestingMonths}
 	}
 	return out, nil
 }
 
 func (e *env) describe(ctx sdk.Context) string {
 	var sb strings.Builder
-	fmt.Fprintf(&sb, "escrow=%d", e.bal(ctx, e.module))
+	fmt.Fprintf(&sb, "escrow=%s", e.w.App.BankKeeper.GetAllBalances(ctx, e.module))
 	l, _ := e.licences(ctx)
 	fmt.Fprintf(&sb, " licences=%v", l)
 	cl, _ := e.w.App.PalomaKeeper.AllLightNodeClients(ctx)
@@ -612,7 +715,7 @@ func (e *env) describe(ctx sdk.Context) string {
 		if acc := e.w.App.AccountKeeper.GetAccount(ctx, a.Addr); acc != nil {
 			kind = strings.TrimPrefix(canonAccount(acc), a.Addr.String()+"|")
 		}
-		fmt.Fprintf(&sb, " %s[%s bal=%d]", a.Name, kind, e.bal(ctx, a.Addr))
+		fmt.Fprintf(&sb, " %s[%s bal=%s]", a.Name, kind, e.w.App.BankKeeper.GetAllBalances(ctx, a.Addr))
 	}
 	_ = e.w.App.FeeGrantKeeper.IterateAllFeeAllowances(ctx, func(g feegrant.Grant) bool {
 		fmt.Fprintf(&sb, " grant(%s->%s)", e.name(g.Granter), e.name(g.Grantee))
@@ -628,14 +731,15 @@ func (e *env) invariant(n *explore.Node) *explore.Fail {
 	g := n.Ghost.(*ghost)
 	ctx := n.Ctx
 	w := e.w
-	// I1 escrow == Σ unactivated licences (ledger), and nothing but ugrain in escrow
-	var sum int64
+	// I1 per denom: escrow == Σ unactivated licences paid in that denom (ledger), nothing else in escrow
+	sum := sdk.NewCoins()
 	for _, l := range g.Lic {
-		sum += l.Amount
+		if l.Amount > 0 {
+			sum = sum.Add(coin(l.Amount, l.Denom))
+		}
 	}
-	all := w.App.BankKeeper.GetAllBalances(ctx, e.module)
-	if esc := all.AmountOf(world.BondDenom); !esc.Equal(sdkmath.NewInt(sum)) || len(all) > 1 {
-		return explore.Failf("I1-escrow", "paloma module account holds %s, not-yet-activated licences total %d ugrain: %s", all, sum, e.describe(ctx))
+	if all := w.App.BankKeeper.GetAllBalances(ctx, e.module); !all.Equal(sum) {
+		return explore.Failf("I1-escrow", "paloma module account holds %q, not-yet-activated licences total %q: %s", all, sum, e.describe(ctx))
 	}
 	// I2 licence records == ledger
 	got, f := e.licences(ctx)
@@ -659,13 +763,17 @@ func (e *env) invariant(n *explore.Node) *explore.Fail {
 			return explore.Failf("I3-client-record", "client record %s activated %d last auth %d, ledger %+v (known=%v)", e.name(c.ClientAddress), c.ActivatedAt.Unix(), c.LastAuthAt.Unix(), a, ok)
 		}
 	}
-	// I4 account kind, balance and vesting schedule of every client address
+	// I4 account kind, balances (every denom) and vesting schedule of every client address
 	for _, c := range e.clients {
 		acc := w.App.AccountKeeper.GetAccount(ctx, c.Addr)
-		b := e.bal(ctx, c.Addr)
+		have := w.App.BankKeeper.GetAllBalances(ctx, c.Addr)
 		if c == e.U {
-			if _, ok := acc.(*authtypes.BaseAccount); !ok || big.NewInt(b).Cmp(e.init[g.Scn]["U"]) != 0 {
-				return explore.Failf("I4-account-holder", "U (never licensed) is %T with %d ugrain, was a base account with %s", acc, b, e.init[g.Scn]["U"])
+			want := sdk.NewCoins()
+			for _, d := range denoms {
+				want = want.Add(sdk.NewCoin(d, sdkmath.NewIntFromBigInt(e.init[g.Scn]["U/"+d])))
+			}
+			if _, ok := acc.(*authtypes.BaseAccount); !ok || !have.Equal(want) {
+				return explore.Failf("I4-account-holder", "U (never licensed) is %T with %q, was a base account with %q", acc, have, want)
 			}
 			continue
 		}
@@ -673,37 +781,39 @@ func (e *env) invariant(n *explore.Node) *explore.Fail {
 		a, activated := g.Act[c.Name]
 		switch {
 		case licensed:
-			if _, ok := acc.(*authtypes.BaseAccount); !ok || b != 0 {
-				return explore.Failf("I4-licensed-account", "%s holds a licence of %d but its account is %T with %d ugrain (want plain base account, 0)", c.Name, l.Amount, acc, b)
+			if _, ok := acc.(*authtypes.BaseAccount); !ok || !have.IsZero() {
+				return explore.Failf("I4-licensed-account", "%s holds a licence of %d%s but its account is %T with %q (want plain base account, nothing)", c.Name, l.Amount, l.Denom, acc, have)
 			}
 		case activated:
 			v, ok := acc.(*vestingtypes.ContinuousVestingAccount)
 			if !ok {
-				return explore.Failf("I4-vesting-kind", "%s activated a licence of %d but its account is %T, not continuous vesting", c.Name, a.Amount, acc)
+				return explore.Failf("I4-vesting-kind", "%s activated a licence of %d%s but its account is %T, not continuous vesting", c.Name, a.Amount, a.Denom, acc)
 			}
-			if b != a.Amount {
-				return explore.Failf("I4-activated-balance", "%s activated a licence of %d ugrain but holds %d", c.Name, a.Amount, b)
+			want := sdk.NewCoins(coin(a.Amount, a.Denom))
+			if !have.Equal(want) {
+				return explore.Failf("I4-activated-balance", "%s activated a licence of %q but holds %q", c.Name, want, have)
 			}
-			want := sdk.NewCoins(sdk.NewInt64Coin(world.BondDenom, a.Amount))
 			if v.StartTime != a.Start || v.EndTime != a.End || !v.OriginalVesting.Equal(want) || !v.DelegatedFree.IsZero() || !v.DelegatedVesting.IsZero() {
-				return explore.Failf("I4-vesting-schedule", "%s: vesting account start %d end %d original %s; want start %d (activation block time) end %d (start + licence months) original %s",
+				return explore.Failf("I4-vesting-schedule", "%s: vesting account start %d end %d original %q; want start %d (activation block time) end %d (start + licence months) original %q (the licensed coin)",
 					c.Name, v.StartTime, v.EndTime, v.OriginalVesting, a.Start, a.End, want)
 			}
 		default:
-			if acc != nil || b != 0 {
-				return explore.Failf("I4-fresh-account", "%s has neither licence nor activation in the ledger but has account %T and %d ugrain: %s", c.Name, acc, b, e.describe(ctx))
+			if acc != nil || !have.IsZero() {
+				return explore.Failf("I4-fresh-account", "%s has neither licence nor activation in the ledger but has account %T and %q: %s", c.Name, acc, have, e.describe(ctx))
 			}
 		}
 	}
-	// I5 funders paid exactly what the ledger says; fee granter untouched
-	for _, fd := range e.F {
-		want := new(big.Int).Sub(e.init[g.Scn][fd.Name], big.NewInt(g.Paid[fd.Name]))
-		if have := w.Balance(ctx, fd.Addr, world.BondDenom); have.Cmp(want) != 0 {
-			return explore.Failf("I5-funder-balance", "%s holds %s ugrain, ledger (initial - escrowed) %s", fd.Name, have, want)
+	// I5 per denom: funders paid exactly what the ledger says; fee granter untouched
+	for _, d := range denoms {
+		for _, fd := range e.F {
+			want := new(big.Int).Sub(e.init[g.Scn][fd.Name+"/"+d], big.NewInt(g.Paid[fd.Name+"/"+d]))
+			if have := w.Balance(ctx, fd.Addr, d); have.Cmp(want) != 0 {
+				return explore.Failf("I5-funder-balance", "%s holds %s %s, ledger (initial - escrowed) %s", fd.Name, have, d, want)
+			}
 		}
-	}
-	if have := w.Balance(ctx, e.FG.Addr, world.BondDenom); have.Cmp(e.init[g.Scn]["FG"]) != 0 {
-		return explore.Failf("I5-feegranter-balance", "fee granter holds %s, initially %s", have, e.init[g.Scn]["FG"])
+		if have := w.Balance(ctx, e.FG.Addr, d); have.Cmp(e.init[g.Scn]["FG/"+d]) != 0 {
+			return explore.Failf("I5-feegranter-balance", "fee granter holds %s %s, initially %s", have, d, e.init[g.Scn]["FG/"+d])
+		}
 	}
 	// I6 fee grants == sale licences of the ledger
 	grants := map[string]bool{}
@@ -725,15 +835,19 @@ func (e *env) invariant(n *explore.Node) *explore.Fail {
 	if fmt.Sprint(grants) != fmt.Sprint(g.Grants) {
 		return explore.Failf("I6-grant-set", "fee grants of the fee granter %v, ledger (sale licences) %v", grants, g.Grants)
 	}
-	// I7 configuration flags of the ledger are the real configuration; oracle cursor follows the votes
+	// I7 configuration of the ledger is the real configuration; oracle cursors follow the votes
 	fs, ferr := w.App.PalomaKeeper.LightNodeClientFunders(ctx)
 	_, gerr := w.App.PalomaKeeper.LightNodeClientFeegranter(ctx)
-	_, cerr := w.App.SkywayKeeper.LightNodeSaleContract(ctx, ref)
-	if (ferr == nil && len(fs.Accounts) > 0) != g.Funders || (gerr == nil) != g.Feegranter || (cerr == nil) != g.Contract {
-		return explore.Failf("harness-config", "configuration (funders err=%v, feegranter err=%v, contract err=%v) does not match ledger %v/%v/%v", ferr, gerr, cerr, g.Funders, g.Feegranter, g.Contract)
+	if (ferr == nil && len(fs.Accounts) > 0) != g.Funders || (gerr == nil) != g.Feegranter {
+		return explore.Failf("harness-config", "configuration (funders err=%v, feegranter err=%v) does not match ledger %v/%v", ferr, gerr, g.Funders, g.Feegranter)
 	}
-	if c := e.cursor(ctx); c != g.Nonce {
-		return explore.Failf("harness-cursor", "last observed skyway nonce %d, votes cast for %d", c, g.Nonce)
+	if f := e.contractsAgree(ctx, g); f != nil {
+		return f
+	}
+	for _, ch := range chains {
+		if c := e.cursor(ctx, ch); c != g.Nonce[ch] {
+			return explore.Failf("harness-cursor", "%s: last observed skyway nonce %d, votes cast for %d", ch, c, g.Nonce[ch])
+		}
 	}
 	return nil
 }
@@ -822,14 +936,14 @@ func (e *env) ops(n *explore.Node) []explore.Op {
 			}
 			for _, pr := range pairs {
 				{
-					fd, c, amt, mo := fd, c, pr.amt, pr.mo
-					add(fmt.Sprintf("AddLicence(%s,%s,%d,%dmo)", fd.Name, c.Name, amt, mo), func(ctx *sdk.Context, g *ghost) *explore.Fail {
+					fd, c, amt, mo, dn := fd, c, pr.amt, pr.mo, pr.denom
+					add(fmt.Sprintf("AddLicence(%s,%s,%d%s,%dmo)", fd.Name, c.Name, amt, dn, mo), func(ctx *sdk.Context, g *ghost) *explore.Fail {
 						msg := &palomatypes.MsgAddLightNodeClientLicense{Metadata: world.Meta(fd), ClientAddress: c.Addr.String(),
-							Amount: sdk.NewInt64Coin(world.BondDenom, amt), VestingMonths: mo}
+							Amount: coin(amt, dn), VestingMonths: mo}
 						return e.withFaults(ctx, g, func(ctx *sdk.Context, g *ghost, faulty bool) *explore.Fail {
 							hadAcc := w.App.AccountKeeper.HasAccount(*ctx, c.Addr)
 							_, lerr := w.App.PalomaKeeper.GetLightNodeClientLicense(*ctx, c.Addr.String())
-							preBal := e.bal(*ctx, fd.Addr)
+							preBal := w.App.BankKeeper.GetAllBalances(*ctx, fd.Addr)
 							var err error
 							if faulty {
 								err = e.faultyMsg(*ctx, func(cc sdk.Context, s palomatypes.MsgServer) error {
@@ -858,14 +972,19 @@ func (e *env) ops(n *explore.Node) []explore.Op {
 							if lerr == nil {
 								return explore.Failf("create-for-licensed:direct", "licence created for %s which already had a licence", c.Name)
 							}
-							if paid := preBal - e.bal(*ctx, fd.Addr); paid != amt {
-								return explore.Failf("direct-funding", "creator %s paid %d for a licence of %d", fd.Name, paid, amt)
+							paid, neg := preBal.SafeSub(w.App.BankKeeper.GetAllBalances(*ctx, fd.Addr)...)
+							wantPaid := sdk.NewCoins()
+							if amt > 0 {
+								wantPaid = sdk.NewCoins(coin(amt, dn))
+							}
+							if neg || !paid.Equal(wantPaid) {
+								return explore.Failf("direct-funding", "creator %s paid %q for a licence of %d%s", fd.Name, paid, amt, dn)
 							}
 							if !faulty {
 								e.cnt["licences_created_direct"]++
 							}
-							g.Lic[c.Name] = lic{amt, mo}
-							g.Paid[fd.Name] += amt
+							g.Lic[c.Name] = lic{amt, dn, mo}
+							g.Paid[fd.Name+"/"+dn] += amt
 							return nil
 						})
 					})
@@ -875,27 +994,17 @@ func (e *env) ops(n *explore.Node) []explore.Op {
 	}
 
 	// --- sale reported by the bridge
-	type saleP struct {
-		amt      int64
-		contract string
-	}
-	var sales []saleP
-	for _, a := range e.al.sale {
-		sales = append(sales, saleP{a, saleContract})
-	}
-	for _, a := range e.al.saleOther {
-		sales = append(sales, saleP{a, otherContract})
-	}
+	sales := e.al.sales
 	for _, c := range targets {
 		for _, sp := range sales {
 			{
-				c, amt, contract := c, sp.amt, sp.contract
-				cn := map[string]string{saleContract: "authorised", otherContract: "other"}[contract]
-				add(fmt.Sprintf("SaleQuorum(%s,%d,%s)", c.Name, amt, cn), func(ctx *sdk.Context, g *ghost) *explore.Fail {
-					g.Nonce++
+				c, amt, contract, chain := c, sp.amt, sp.contract, sp.chain
+				add(fmt.Sprintf("SaleQuorum(%s,%s,%d,%s)", chain, c.Name, amt, contName[contract]), func(ctx *sdk.Context, g *ghost) *explore.Fail {
+					g.Nonce[chain]++
+					nonce := g.Nonce[chain]
 					for _, v := range w.Vals {
 						res := w.DeliverTx(*ctx, []*world.Actor{v.Actor}, &skywaytypes.MsgLightNodeSaleClaim{Metadata: world.Meta(v.Actor),
-							EventNonce: g.Nonce, EthBlockHeight: 10 + g.Nonce, Orchestrator: v.Addr.String(), ChainReferenceId: ref, SkywayNonce: g.Nonce,
+							EventNonce: nonce, EthBlockHeight: 10 + nonce, Orchestrator: v.Addr.String(), ChainReferenceId: chain, SkywayNonce: nonce,
 							ClientAddress: c.Addr.String(), Amount: sdkmath.NewInt(amt), SmartContractAddress: contract, CompassId: world.CompassID})
 						if !res.OK() {
 							return explore.Failf("harness-claim", "sale claim of %s rejected in %s: %v", v.Name, res.Stage, res.Err)
@@ -904,14 +1013,14 @@ func (e *env) ops(n *explore.Node) []explore.Op {
 					return e.withFaults(ctx, g, func(ctx *sdk.Context, g *ghost, faulty bool) *explore.Fail {
 						hadAcc := w.App.AccountKeeper.HasAccount(*ctx, c.Addr)
 						_, lerr := w.App.PalomaKeeper.GetLightNodeClientLicense(*ctx, c.Addr.String())
-						preBal := []int64{e.bal(*ctx, e.F[0].Addr), e.bal(*ctx, e.F[1].Addr)}
+						preBal := []int64{e.bal(*ctx, e.F[0].Addr, world.BondDenom), e.bal(*ctx, e.F[1].Addr, world.BondDenom)}
 						if faulty {
 							w.SkywayEnd(*ctx, &e.fSkyway)
 						} else {
 							w.SkywayEnd(*ctx, nil)
 						}
-						if cur := e.cursor(*ctx); cur != g.Nonce {
-							return explore.Failf("harness-cursor", "sale event %d voted by all validators but last observed nonce is %d", g.Nonce, cur)
+						if cur := e.cursor(*ctx, chain); cur != nonce {
+							return explore.Failf("harness-cursor", "sale event %d of %s voted by all validators but last observed nonce is %d", nonce, chain, cur)
 						}
 						if g.dg = e.digest(*ctx); g.dg == pre {
 							if !faulty {
@@ -923,22 +1032,25 @@ func (e *env) ops(n *explore.Node) []explore.Op {
 						if err != nil || lerr == nil {
 							return explore.Failf("sale-partial-effect", "sale for %s changed bank / account / feegrant / paloma state without creating a licence: %s", c.Name, e.describe(*ctx))
 						}
-						if !g.configured() {
-							return explore.Failf("sale-unconfigured-effect", "sale created a licence although funders=%v feegranter=%v contract=%v", g.Funders, g.Feegranter, g.Contract)
+						if !g.Funders || !g.Feegranter {
+							return explore.Failf("sale-unconfigured-effect", "sale created a licence although funders=%v feegranter=%v", g.Funders, g.Feegranter)
 						}
-						if contract != saleContract {
-							return explore.Failf("sale-unauthorised-contract", "sale reported from %s created a licence; authorised contract is %s", contract, saleContract)
+						if !g.Contracts[chain] {
+							return explore.Failf("sale-unauthorised-contract", "sale reported from chain %s (contract %s) created a licence, but the sale contracts currently authorised by governance are %s", chain, contName[contract], setName(g.Contracts))
+						}
+						if contract != ownSale[chain] {
+							return explore.Failf("sale-unauthorised-contract", "sale reported on %s by contract %s created a licence; the contract authorised there is %s", chain, contName[contract], contName[ownSale[chain]])
 						}
 						if hadAcc {
 							return explore.Failf("create-for-existing-account:sale", "sale licence created for %s which already had an account", c.Name)
 						}
 						want := amt * saleUnit
-						if !l.Amount.Equal(sdk.NewInt64Coin(world.BondDenom, want)) || l.VestingMonths != saleMonths {
+						if !l.Amount.Equal(coin(want, world.BondDenom)) || l.VestingMonths != saleMonths {
 							return explore.Failf("sale-licence-record", "sale of %d GRAIN created licence %s / %d months", amt, l.Amount, l.VestingMonths)
 						}
 						payer := -1
 						for i, fd := range e.F {
-							switch d := preBal[i] - e.bal(*ctx, fd.Addr); {
+							switch d := preBal[i] - e.bal(*ctx, fd.Addr, world.BondDenom); {
 							case d == 0:
 							case d == want && payer < 0:
 								payer = i
@@ -952,9 +1064,9 @@ func (e *env) ops(n *explore.Node) []explore.Op {
 						if !faulty {
 							e.cnt["licences_created_sale"]++
 						}
-						g.Lic[c.Name] = lic{want, saleMonths}
+						g.Lic[c.Name] = lic{want, world.BondDenom, saleMonths}
 						if payer >= 0 {
-							g.Paid[e.F[payer].Name] += want
+							g.Paid[e.F[payer].Name+"/"+world.BondDenom] += want
 						}
 						g.Grants[c.Name] = true
 						return nil
@@ -990,9 +1102,9 @@ func (e *env) ops(n *explore.Node) []explore.Op {
 			msg := &palomatypes.MsgRegisterLightNodeClient{Metadata: md}
 			return e.withFaults(ctx, g, func(ctx *sdk.Context, g *ghost, faulty bool) *explore.Fail {
 				T := ctx.BlockTime()
-				preBal := map[string]int64{}
+				preBal := map[string]sdk.Coins{}
 				for _, c := range e.clients {
-					preBal[c.Name] = e.bal(*ctx, c.Addr)
+					preBal[c.Name] = w.App.BankKeeper.GetAllBalances(*ctx, c.Addr)
 				}
 				var err error
 				if faulty {
@@ -1037,10 +1149,11 @@ func (e *env) ops(n *explore.Node) []explore.Op {
 					return explore.Failf("activation-not-by-licensee", "message of creator %s (signers %v) activated the licence(s) of %v", rg.creator.Name, md.Signers, removed)
 				}
 				l := g.Lic[rg.creator.Name]
+				licensed := sdk.NewCoins(coin(l.Amount, l.Denom))
 				for _, c := range e.clients {
-					d := e.bal(*ctx, c.Addr) - preBal[c.Name]
-					if c == rg.creator && d != l.Amount || c != rg.creator && d != 0 {
-						return explore.Failf("activation-amount", "activation of %s's licence of %d ugrain changed the balance of %s by %d", rg.creator.Name, l.Amount, c.Name, d)
+					d, neg := w.App.BankKeeper.GetAllBalances(*ctx, c.Addr).SafeSub(preBal[c.Name]...)
+					if neg || c == rg.creator && !d.Equal(licensed) || c != rg.creator && !d.IsZero() {
+						return explore.Failf("activation-amount", "activation of %s's licence of %q changed the balance of %s by %q (must move exactly the licensed coin to the licensee)", rg.creator.Name, licensed, c.Name, d)
 					}
 				}
 				end := T.AddDate(0, int(l.Months), 0)
@@ -1052,7 +1165,7 @@ func (e *env) ops(n *explore.Node) []explore.Op {
 					}
 					if l.Months > 0 {
 						mid := time.Unix((T.Unix()+end.Unix())/2, 0)
-						half := v.GetVestedCoins(mid).AmountOf(world.BondDenom).Int64()
+						half := v.GetVestedCoins(mid).AmountOf(l.Denom).Int64()
 						if 2*half < l.Amount-2 || 2*half > l.Amount+2 {
 							return explore.Failf("vesting-linear", "vested at mid-schedule %d of %d", half, l.Amount)
 						}
@@ -1065,7 +1178,7 @@ func (e *env) ops(n *explore.Node) []explore.Op {
 					e.cnt["activations"]++
 				}
 				delete(g.Lic, rg.creator.Name)
-				g.Act[rg.creator.Name] = act{Amount: l.Amount, Start: T.Unix(), End: end.Unix(), LastAuth: T.Unix()}
+				g.Act[rg.creator.Name] = act{Amount: l.Amount, Denom: l.Denom, Start: T.Unix(), End: end.Unix(), LastAuth: T.Unix()}
 				return nil
 			})
 		})
@@ -1115,12 +1228,29 @@ func (e *env) ops(n *explore.Node) []explore.Op {
 		g.Funders = !g.Funders
 		return nil
 	})
-	add(fmt.Sprintf("GovSaleContract(%v)", !g0.Contract), func(ctx *sdk.Context, g *ghost) *explore.Fail {
-		if err := e.setContract(*ctx, !g.Contract); err != nil {
-			return explore.Failf("harness", "contracts proposal: %v", err)
+	govContracts := func(set map[string]bool) {
+		add("GovSaleContracts("+setName(set)+")", func(ctx *sdk.Context, g *ghost) *explore.Fail {
+			if err := e.setContracts(*ctx, set); err != nil {
+				return explore.Failf("harness", "contracts proposal: %v", err)
+			}
+			g.Contracts = map[string]bool{}
+			for ch, on := range set {
+				if on {
+					g.Contracts[ch] = true
+				}
+			}
+			// the stored contracts must be exactly what this proposal said
+			return e.contractsAgree(*ctx, g)
+		})
+	}
+	if e.al.govSets {
+		for _, set := range []map[string]bool{{}, {ref: true}, {ref2: true}, {ref: true, ref2: true}} {
+			if setName(set) != setName(g0.Contracts) {
+				govContracts(set)
+			}
 		}
-		g.Contract = !g.Contract
-		return nil
-	})
+	} else {
+		govContracts(map[string]bool{ref: !g0.Contracts[ref]})
+	}
 	return ops
 }
